@@ -17,6 +17,9 @@ abstract stream `Spec`, and programs over the stream operations (`StreamProg`).
                     witnesses D2–D6.  D1 (`read8s` at end of data: 0 from a
                     FILE, -1 elsewhere) was repaired in libxmp: the agreeing
                     fragment grew, `C07_read8s_agree` replaces the witness;
+* `C07_eof_guarded` programs that consult `hio_eof` only directly after a short
+                    read are in the fragment (loader-level statement of D3), with the
+                    counter-shape `C07_eof_after_complete_read`;
 * `C07_same_core`   the four entry points run the same program (`load.c`);
                     only the path fields differ.
 
@@ -352,6 +355,88 @@ theorem C07_F14_pattern :
       [.val 1, .val 9, .val 0, .val 0, .val 0xffffffff] ∧
     trace (Mem.step [0, 0, 0, 1, 9, 0, 0, 0, 7]) [.word .b32, .word .l32, .seek 9 .cur, .eof, .word .b32] {} =
       [.val 1, .val 9, .val 0, .val 1, .val 0xffffffff] := by decide
+
+/-! ## the `hio_eof` discipline (loader-level statement of D3) -/
+
+
+/-- a short read leaves the abstract stream "sticky" -/
+theorem short_sticky (bytes : Bytes) (s s' : Spec.St) (o : Op) (out : Out)
+    (h : Spec.step bytes s o = some (out, s')) (hs : isShortRead bytes s o = true) : s'.sticky = true := by
+  cases o with
+  | word w =>
+    simp only [isShortRead, decide_eq_true_eq] at hs
+    have : ¬ (s.pos + w.len ≤ bytes.length) := by omega
+    simp [Spec.step, this] at h
+    obtain ⟨_, rfl⟩ := h; rfl
+  | read size num =>
+    simp only [isShortRead, decide_eq_true_eq] at hs
+    obtain ⟨hn, hz, hlt⟩ := hs
+    have : ¬ (s.pos + size * num ≤ bytes.length) := by omega
+    simp [Spec.step, hn, hz, this] at h
+    obtain ⟨_, rfl⟩ := h; rfl
+  | seek off w => simp [isShortRead] at hs
+  | tell => simp [isShortRead] at hs
+  | eof => simp [isShortRead] at hs
+  | error => simp [isShortRead] at hs
+  | size => simp [isShortRead] at hs
+
+theorem eofGuarded_inFrag {α : Type} (bytes : Bytes) (js : Bool) (s : Spec.St) (p : StreamProg α)
+    (h : EofGuarded bytes js s p) (hjs : js = true → s.sticky = true) : InFrag bytes s p := by
+  induction h with
+  | ret js s a => exact .ret s a
+  | eof s k _ ih =>
+    have hst := hjs rfl
+    refine .op s s .eof (.val 1) k (by simp [Spec.step, hst]) ?_ (ih hjs)
+    intro out' ha; rw [agree_val ha]
+  | op js s s' o out k hne hstep hk _ ih =>
+    exact .op s s' o out k hstep hk (ih (short_sticky bytes s s' o out hstep))
+
+
+/-- `eof` is specified exactly when a read came up short since the last successful seek, or the
+position is strictly inside the data -/
+theorem C07_eof_defined_iff (bytes : Bytes) (s : Spec.St) :
+    (Spec.step bytes s .eof).isSome = true ↔ (s.sticky = true ∨ s.pos < bytes.length) := by
+  by_cases hst : s.sticky = true
+  · simp [Spec.step, hst]
+  · by_cases hlt : s.pos < bytes.length
+    · simp [Spec.step, hst, hlt]
+    · simp [Spec.step, hst, hlt]
+
+/-- **Programs that consult `hio_eof` only directly after a short read agree on every
+back-end** (their other operations being defined by `Spec`): such a program is in the
+agreeing fragment, hence by `C07_programs` returns the same result on FILE, memory and
+every legal callback set — and every `eof` it issues answers "true".  Conversely
+(`C07_divergence`, `C07_eof_after_complete_read`, `C07_F14_pattern`) `eof` at `pos = size`
+without a short read is answered differently by memory and stdio. -/
+theorem C07_eof_guarded {α σ : Type} (bytes : Bytes) (p : StreamProg α) (hg : EofGuarded bytes false {} p)
+    (cb : Callbacks σ) (posOf : σ → Nat) (hl : Legal bytes cb posOf) (u₀ : σ) (h0 : posOf u₀ = 0) :
+    run (File.step bytes) p {} = run (Mem.step bytes) p {} ∧
+    run (Mem.step bytes) p {} = run (Cb.step cb bytes.length) p { u := u₀ } :=
+  C07_programs bytes p (eofGuarded_inFrag bytes false {} p hg (by simp)) cb posOf hl u₀ h0
+
+/-- the loader idiom `x = hio_read16b(f); if (hio_eof(f)) fail;` -/
+def readThenEof (w : Word) : StreamProg (Int × Int) :=
+  .op (.word w) fun
+    | .val v => .op .eof fun
+        | .val e => .ret (v, e)
+        | _ => .ret (v, -1)
+    | _ => .ret (-1, -1)
+
+/-- non-trivial instance: when the read really comes up short the idiom is inside the discipline … -/
+example : EofGuarded [7] false {} (readThenEof .l16) := by
+  refine .op false {} { pos := 1, err := .eof, sticky := true } (.word .l16) (.val 0xffff) _ (by decide) (by decide) ?_ ?_
+  · intro out' h; rw [agree_val h]
+  · exact .eof _ _ (.ret _ _ _)
+
+/-- … **but not when the read completes at the last byte of the data** (the shape of the
+findings `entry:abk:load-*`, `entry:mmd1:load-rc` and of the S3M pattern loop with `hio_eof`
+in place of `hio_error`): the memory back-end reports EOF, stdio and callbacks do not, so a
+structure stored last in the file is rejected from memory only. -/
+theorem C07_eof_after_complete_read :
+    run (File.step [0, 7]) (readThenEof .b16) {} = (7, 0) ∧
+    run (Mem.step [0, 7]) (readThenEof .b16) {} = (7, 1) ∧
+    run (Cb.step (memCb [0, 7] {}) 2) (readThenEof .b16) { u := 0 } = (7, 0) ∧
+    Spec.run [0, 7] (readThenEof .b16) {} = none := by decide
 
 /-! ## C07_same_core -/
 
